@@ -150,11 +150,17 @@ def _task(item):
   scn = item["scn"]
   out = {"key": synth.scn_key(scn), "diffs": None, "obs": None, "interp": None, "unreal": None, "outcome": None,
          "why": None, "tag": item.get("tag", "")}
+  tpath = os.path.join(tlc.WORK, "trace_%d.ndjson" % os.getpid())
+  os.makedirs(tlc.WORK, exist_ok=True)
+  if os.path.exists(tpath):
+    os.unlink(tpath)
+  os.environ["AI_EDGE_QUANTIZER_VERIF_TRACE"] = tpath       # hook H2: one event per applied instruction
   try:
     if item.get("fixture"):
       impl = run_fixture(item["fixture"], scn, item["info"])
     else:
       impl = pipeline.run_impl(scn, seed=item.get("seed", 0))
+    out["events"] = [json.loads(x) for x in open(tpath)] if os.path.exists(tpath) else []
   except synth.Unrealisable as e:
     out["unreal"] = str(e)
     return out
@@ -251,3 +257,50 @@ def design_run_from(name, scns, invariants=(), workers=16, timeout=3600):
   for d in r.json_dumps():
     dumps.setdefault(synth.scn_key(d["scn"]), d)
   return r, dumps
+
+
+def validate_traces(name, results, workers=16, timeout=3600):
+  """Step-level trace validation (PipelineTrace.tla) of the hook events of every executed scenario.
+
+  Returns (accepted, rejected list of (result index, verdict), TLC result). A rejection is drift of the
+  implementation-shaped part of the specification (reported as NOTE), never by itself a violation.
+  """
+  from harness import configs  # pylint: disable=g-import-not-at-top
+  idx = [i for i, r in enumerate(results) if r.get("events") is not None and r.get("unreal") is None and r.get("outcome") in ("done", "raised")]
+  if not idx:
+    return 0, [], None
+  scns, traces = [], []
+  for i in idx:
+    scn = results[i]["scn"]
+    clean = {k: scn[k] for k in ("subs", "mode", "inmode", "outmode")}
+    for sub in clean["subs"]:
+      sub.setdefault("tbuf", [0] * len(sub["trole"]))
+      sub.setdefault("tsh", [[0, 0]] * len(sub["trole"]))
+    scns.append(clean)
+    traces.append(results[i]["events"])
+  sp, tp = os.path.join(tlc.WORK, name + "_scns.json"), os.path.join(tlc.WORK, name + "_traces.json")
+  json.dump(scns, open(sp, "w"))
+  json.dump(traces, open(tp, "w"))
+  c = configs.cfg(1, ["FC"], [configs.NOQ], [configs.NOQ], [configs.NOQ])
+  r = tlc.run(name, "PipelineTrace", c, constraints=["EmitT"], spec_name="TraceSpec", workers=workers, env={"SCN_FILE": sp, "TRACE_FILE": tp},
+              extends="PipelineTrace", timeout=timeout)
+  best = {}
+  for line in r.printed("TVERDICT"):
+    try:
+      v = json.loads(json.loads(line[line.index(",") + 1:line.rindex(">>")].strip()))
+    except Exception:  # pylint: disable=broad-except
+      continue
+    if v["ti"] not in best or v["accepted"] or v["consumed"] > best[v["ti"]]["consumed"]:
+      if not (v["ti"] in best and best[v["ti"]]["accepted"]):
+        best[v["ti"]] = v
+  rejected = []
+  accepted = 0
+  for k, i in enumerate(idx):
+    v = best.get(k + 1)
+    if v is None:
+      rejected.append((i, {"accepted": False, "consumed": -1, "len": len(traces[k]), "pc": "no verdict"}))
+    elif v["accepted"] and (results[i]["outcome"] == "done") == (v["pc"] == "done"):
+      accepted += 1
+    else:
+      rejected.append((i, v))
+  return accepted, rejected, r
